@@ -112,13 +112,18 @@ Definition mk_field (m : mesh) (nvdim : nat) (u : option string) (a : list (list
   set_valid f1_ vs.
 
 (* histories of public calls on one field object *)
-Inductive op := OSetNorm (s : nspec) | OUpdate (a : list (list K)) | OSetValid (vs : vspec).
+(* OWrite g: an in-place write into the array the getter hands out (field.array[...] = / *= ...);
+   g maps the stored cells to the cells after the write.  The object keeps no other state, so the
+   model's state after the write is simply the written array. *)
+Inductive op := OSetNorm (s : nspec) | OUpdate (a : list (list K)) | OSetValid (vs : vspec)
+              | OWrite (g : list (list K) -> list (list K)).
 
 Definition run_op (f : field) (o : op) : res field :=
   match o with
   | OSetNorm s => set_norm f s
   | OUpdate a => update_values f a
   | OSetValid vs => set_valid f vs
+  | OWrite g => OK (mkField (f_mesh f) (f_nvdim f) (f_unit f) (f_valid f) (g (f_arr f)))
   end.
 
 Fixpoint run_ops (f : field) (os : list op) : res field :=
@@ -130,7 +135,7 @@ Fixpoint run_ops (f : field) (os : list op) : res field :=
 End NormModel.
 
 Arguments NConst {K}. Arguments NArr {K}. Arguments NFun {K}.
-Arguments OSetNorm {K}. Arguments OUpdate {K}. Arguments OSetValid {K}.
+Arguments OSetNorm {K}. Arguments OUpdate {K}. Arguments OSetValid {K}. Arguments OWrite {K}.
 Arguments mkField {K}.
 Arguments zeros {K}. Arguments unit_cell {K}. Arguments scale_cell {K}. Arguments set_cell {K}.
 Arguments spec_values {K}. Arguments norm_field {K}. Arguments set_norm {K}. Arguments orientation {K}.
